@@ -46,6 +46,11 @@ def plan(tier, ctx):
     if not quick:
         for v in ("04", "01"):
             qs.append(P.asmdec_query(v, 1, 0, 3, True, unwind=4, timeout=2400, mem_gb=16))
+    # opt-in experiment, NOT part of the registered check (measured 2026-10-03: no verdict in 1500 s even for the C decoder with one
+    # symbolic byte -- the tables built from a dynamic header stay array-theory objects of 20 KB): dynamic block with long codes
+    import os
+    if os.environ.get("VERIF_DYNCODES"):
+        qs.append(P.dyncodes_query(os.environ["VERIF_DYNCODES"], 1, 3, True, timeout=1500, mem_gb=20))
     return Plan("C02", "model_checking", qs,
                 functions_encoded=P.FUNCS, bounds=P.bounds(True), stubs=P.STUBS,
                 assumptions=P.ASSUMPTIONS + ["flavour: the reference decoder accepts the input (well-formed stream / block)"],
